@@ -76,6 +76,7 @@ func genC09(t *rapid.T) c09Case {
 		text, graphs, _ := genProfileAndGraphs(t, name, rapid.IntRange(1, 3).Draw(t, "graphs"))
 		c.Profiles = append(c.Profiles, text)
 		for _, g := range graphs {
+			genScale(t, g, 16)
 			switch rapid.IntRange(0, 3).Draw(t, "lexical") {
 			case 0: // with lexical source maps; the root location is unique to this case so that state leaking between calls shows
 				sm := genSourceMaps(t, g)
@@ -136,8 +137,9 @@ func genC09(t *rapid.T) c09Case {
 	n := rapid.IntRange(3, 20).Draw(t, "ops")
 	for i := 0; i < n; i++ {
 		op := c09Op{Profile: rapid.IntRange(0, np-1).Draw(t, "p"), Doc: rapid.IntRange(0, len(c.Docs)-1).Draw(t, "d"), WithCfg: rapid.IntRange(0, 3).Draw(t, "cfg") != 0}
-		if i > 0 && rapid.IntRange(0, 4).Draw(t, "repeat") == 0 {
+		if i > 0 && c.Ops[i-1].Kind != "intruder" && rapid.IntRange(0, 4).Draw(t, "repeat") == 0 {
 			op = c.Ops[i-1]
+			op.Kind = ""
 		}
 		switch k := rapid.IntRange(0, 9).Draw(t, "opKind"); {
 		case k == 0:
